@@ -308,7 +308,80 @@ def xml_facts():
     _emit('XmlFacts', body)
 
 
-ALL = dict(xml_facts=xml_facts, timer_consts=timer_consts, schema_utest=schema_utest, consts=consts, itoa_table=itoa_table, mon_days=mon_days, tables_utest=tables_utest)
+def logger_facts():
+    """what the C28 model takes from the logger sources: level names, width of the sequence column, direction texts,
+    the statements of Logger::stop(), the exit test of the writer loop"""
+    cpp = _src('runtime/logger.cpp')
+    hpp = _src('include/fix8/logger.hpp')
+    m = re.search(r'Logger::_level_names\s*\{([^}]*)\}', cpp)
+    if not m:
+        raise FactError('Logger::_level_names not found in runtime/logger.cpp')
+    names = re.findall(r'"([^"]*)"', m.group(1))
+    me = re.search(r'enum\s+Level\s*\{([^}]*)\}', hpp)
+    if not me or len(names) != len([x for x in me.group(1).split(',') if x.strip()]) or any('"' in n or '\\' in n for n in names):
+        raise FactError('Logger::_level_names does not match enum Level')
+    m = re.search(r'case sequence:\s*fostr << setw\((\d+)\) << right << setfill\(\'0\'\)', cpp)
+    if not m:
+        raise FactError('width of the sequence column not recognised in Logger::process_logline')
+    width = int(m.group(1))
+    m = re.search(r'case direction:\s*fostr << \(msg_ptr->_val \? "([^"]*)" : "([^"]*)"\);', cpp)
+    if not m:
+        raise FactError('direction texts not recognised in Logger::process_logline')
+    din, dout = m.group(1), m.group(2)
+    m = re.search(r'void stop\(\)\s*\{([^}]*)\}', hpp)
+    if not m:
+        raise FactError('Logger::stop() not found in include/fix8/logger.hpp')
+    body = [re.sub(r'\s+', '', x) for x in m.group(1).split(';') if x.strip()]
+    if any('"' in b for b in body):
+        raise FactError('Logger::stop() body not recognised')
+    m = re.search(r'if \(msg_ptr->_str\.empty\(\)\)\s*// means exit', cpp)
+    if not m:
+        raise FactError('exit test of the writer loop (empty string) not recognised in Logger::operator()')
+    _emit('LoggerFacts', '/-- `Logger::_level_names` -/\ndef levelNames : List String := [%s]\n\n/-- `setw(..)` of the sequence column -/\ndef seqWidth : Nat := %d\n\n'
+          '/-- texts of the direction column: (value non-zero, value zero) -/\ndef dirIn : String := "%s"\ndef dirOut : String := "%s"\n\n'
+          '/-- the statements of `Logger::stop()` in order, blanks removed -/\ndef stopBody : List String := [%s]\n'
+          % (', '.join('"%s"' % n for n in names), width, din, dout, ', '.join('"%s"' % b for b in body)))
+
+
+def sched():
+    """C24: Tickval tick constants (include/fix8/tickval.hpp) and the weekday tables of decode_dow (runtime/f8utils.cpp)"""
+    tv = _src('include/fix8/tickval.hpp')
+    env = {}
+    for name in ('thousand', 'million', 'billion', 'second', 'minute', 'hour', 'day', 'week'):
+        m = re.search(r'static const ticks %s\s*=\s*([^;]+);' % name, tv)
+        if not m:
+            raise FactError('Tickval::%s not found in include/fix8/tickval.hpp' % name)
+        expr = m.group(1).strip()
+        if not re.fullmatch(r'[\w\s*]+', expr):
+            raise FactError('Tickval::%s has an unexpected initialiser %r' % (name, expr))
+        v = 1
+        for f in expr.split('*'):
+            f = f.strip()
+            if f.isdigit():
+                v *= int(f)
+            elif f in env:
+                v *= env[f]
+            else:
+                raise FactError('Tickval::%s refers to unknown %r' % (name, f))
+        env[name] = v
+    u = _src('runtime/f8utils.cpp')
+    m = re.search(r'static const string day_names\[\]\s*\{([^}]*)\}', u)
+    if not m:
+        raise FactError('day_names table not found in runtime/f8utils.cpp')
+    names = re.findall(r'"([^"\\]*)"', m.group(1))
+    m2 = re.search(r'static const Day days\[\]\s*\{(.*?)\};', u, re.S)
+    if not m2:
+        raise FactError('days table not found in runtime/f8utils.cpp')
+    pairs = re.findall(r"\{\s*'(.)'\s*,\s*(\d+)\s*\}", m2.group(1))
+    if not names or not pairs or len(re.findall(r'\{', m2.group(1))) != len(pairs):
+        raise FactError('weekday tables of decode_dow not recognised')
+    body = ''.join('/-- `Tickval::%s` -/\ndef tick%s : Int := %d\n' % (n, n.capitalize(), env[n]) for n in ('second', 'minute', 'hour', 'day', 'week'))
+    body += '\n/-- `day_names[]` of `decode_dow` (character codes) -/\ndef dowNames : List (List Nat) := [%s]\n' % ', '.join('[%s]' % ', '.join(str(ord(c)) for c in n) for n in names)
+    body += '\n/-- `days[]`: the (first letter, weekday) pairs the `Daymap` multimap is built from, in source order -/\ndef dowPairs : List (Nat × Nat) := [%s]\n' % ', '.join('(%d, %s)' % (ord(c), d) for c, d in pairs)
+    _emit('Sched', body)
+
+
+ALL = dict(sched=sched, logger_facts=logger_facts, xml_facts=xml_facts, timer_consts=timer_consts, schema_utest=schema_utest, consts=consts, itoa_table=itoa_table, mon_days=mon_days, tables_utest=tables_utest)
 
 
 def generate(names):
